@@ -21,19 +21,19 @@ theorem names_assignment_coherent (v : Option DimNames) (t : M) (hc : Coherent t
   have := setNamesM_spec v t hc
   exact ⟨this.2.2, this.1⟩
 
-/-- `td.batch_size = new` (repaired `_batch_size_setter`, DESIGN §7 rows 18 and 19) on a coherent node:
-  * it answers ok, RuntimeError or ValueError;
-  * a RuntimeError (incompatible entry) changes NOTHING — no nested tensordict has grown (row 19);
-  * on success the tree is coherent with the new batch size — empty nested tensordicts included (row 18);
-  * the tree is coherent in every case except the ValueError raised by a dim-name conflict while the names are
-    pushed into a nested tensordict (see `setbatch_names_conflict_counterexample`). -/
+/-- `td.batch_size = new` (repaired `_batch_size_setter`, DESIGN §7 rows 18 and 19 and the dim-name clash) on a coherent node:
+  * it answers ok, RuntimeError (incompatible entry) or ValueError (a dim name pushed into a nested tensordict clashes);
+  * whenever it raises NOTHING has changed — no nested tensordict has grown (row 19), the batch sizes and names that were
+    modified before a dim-name clash are put back;
+  * on success the tree is coherent with the new batch size — empty nested tensordicts included (row 18) — on the same device;
+  * the tree is coherent in every case. -/
 theorem batch_size_assignment (new bs : Shape) (dv : Option Nat) (ns : Option DimNames) (kids : Kids)
     (hc : Coherent (.node bs dv ns kids)) :
     let r := setBatchM new (.node bs dv ns kids)
     (r.2 = .ok ∨ r.2 = .err .runtime ∨ r.2 = .err .value) ∧
-    (r.2 = .err .runtime → r.1 = .node bs dv ns kids) ∧
+    (r.2 ≠ .ok → r.1 = .node bs dv ns kids) ∧
     (r.2 = .ok → Coherent r.1 ∧ r.1.shape = new ∧ ∀ d, r.1.onDev d = (dv == some d)) ∧
-    (r.2 ≠ .err .value → Coherent r.1) :=
+    Coherent r.1 :=
   setBatchM_spec new bs dv ns kids hc
 
 /-- `_validate_value`: whatever the value and whatever happens (shape rejected, device move impossible, names
@@ -59,16 +59,26 @@ theorem update_coherent (items : List (Path × PV)) (t : M) (hc : Coherent t) :
     Coherent (updateC (updMeasureC items) items t).1 ∧ (updateC (updMeasureC items) items t).1.shape = t.shape :=
   ⟨(updateC_spec _ items t hc).2.2, (updateC_spec _ items t hc).1⟩
 
-/-- `auto_batch_size_(batch_dims)` (`_set_max_batch_size`) on a coherent tensordict, for every `batch_dims`:
+/-- `update(payload)` with a (coherent) tensordict payload: after the loose batch-size test, every entry is validated where it
+lands; a nested tensordict meeting a nested tensordict is handed to that tensordict's own `update` (same test one level
+down); wherever the update stops — batch sizes that cannot be reconciled, an ill-shaped tensor below, a device that cannot be
+left — the receiver is coherent and keeps its batch size. -/
+theorem update_tensordict_coherent (payload t : M) (hc : Coherent t) (hp : Coherent payload) :
+    Coherent (updateTdM payload t).1 ∧ (updateTdM payload t).1.shape = t.shape :=
+  ⟨(updateTdM_spec payload t hc hp).2.2, (updateTdM_spec payload t hc hp).1⟩
+
+/-- `auto_batch_size_(batch_dims)` (`_set_max_batch_size`, repaired) on a coherent tensordict, for every `batch_dims`:
   * it answers ok or ValueError — the batch size it computes (the leading dims shared by the first entry and every
     other entry that is not an empty nested tensordict, nested tensordicts first) is NEVER refused as incompatible
     with an entry (no RuntimeError), although the nested tensordicts were resized before;
   * when it returns normally the whole tree is coherent again — nested tensordicts that were cut to `batch_dims`
-    dims or stretched to their own maximum fit the batch size their parent ends up with — and on the same device. -/
+    dims or stretched to their own maximum fit the batch size their parent ends up with — and on the same device;
+  * when it raises nothing has changed; the tree is coherent in every case. -/
 theorem auto_batch_size_coherent (bd : Option Nat) (bs : Shape) (dv : Option Nat) (ns : Option DimNames) (kids : Kids)
     (hc : Coherent (.node bs dv ns kids)) :
     let r := autoBatchM bd (.node bs dv ns kids)
-    (r.2 = .ok ∨ r.2 = .err .value) ∧ (r.2 = .ok → Coherent r.1 ∧ ∀ d, r.1.onDev d = (dv == some d)) :=
+    (r.2 = .ok ∨ r.2 = .err .value) ∧ (r.2 = .ok → Coherent r.1 ∧ ∀ d, r.1.onDev d = (dv == some d)) ∧
+    (r.2 ≠ .ok → r.1 = .node bs dv ns kids) ∧ Coherent r.1 :=
   autoBatchM_spec bd bs dv ns kids hc
 
 /-- the batch size chosen by `_set_max_batch_size` is a common prefix: of the first entry's shape and of the shape of
@@ -79,42 +89,55 @@ theorem auto_batch_size_common_prefix (bd : Option Nat) (first : Shape) (others 
   have := autoPrefix_spec bd first [] [] others (List.prefix_refl _) (fun _ => rfl)
   simpa using this
 
+/-- restructuring in place — `exclude(*keys, inplace=True)`, `flatten_keys(sep, inplace=True)` (repaired),
+`unflatten_keys(sep, inplace=True)` — keeps the tree coherent for every outcome: excluded entries simply leave; the leaves
+that `flatten_keys` writes at the root with `validated=True` (no check) DO fit the root, because batch sizes extend one another
+and a device set on a tensordict is shared by everything below (`leavesM_fit`); `unflatten_keys` is a loop of validated
+`rename_key_(name, name.split(sep), safe=True)` whose partial effects (a later name refused) are coherent too. -/
+theorem restructure_in_place_coherent (t : M) (hc : Coherent t) :
+    (∀ keys, Coherent (excludeM keys t).1 ∧ (excludeM keys t).1.shape = t.shape) ∧
+    (∀ sep, Coherent (flattenM sep t).1 ∧ (flattenM sep t).1.shape = t.shape) ∧
+    (∀ sep, Coherent (unflattenM sep t).1 ∧ (unflattenM sep t).1.shape = t.shape) :=
+  ⟨fun keys => ⟨(excludeM_spec keys t hc).2.2, (excludeM_spec keys t hc).1⟩,
+   fun sep => ⟨(flattenM_spec sep t hc).2.2, (flattenM_spec sep t hc).1⟩,
+   fun sep => ⟨(unflattenM_spec sep t hc).2.2, (unflattenM_spec sep t hc).1⟩⟩
+
 /-! ## one step -/
 
 /-- the value of a `set` is itself a coherent tensor / tensordict (what the constructors deliver) -/
 def ValOk : Op → Prop
   | .set _ _ v => Coherent v
   | .setdefault _ _ v => Coherent v
+  | .updateTd _ m => Coherent m
   | _ => True
 
-/-- scope of the property: a `batch_size` assigned through a nested handle still extends the batch size of the
-node holding that tensordict ("shrinking a child's batch size below its parent's through a direct handle" is
-the documented exclusion). -/
+/-- scope of the property: a `batch_size` assigned through a nested handle — directly or by `auto_batch_size_` — still
+extends the batch size of the node holding that tensordict ("shrinking a child's batch size below its parent's through a
+direct handle" is the documented exclusion). On the root the condition is void. -/
 def InScope (t : M) : Op → Prop
   | .setBatch h bs => handleOk bs h t
-  | .autoBatch h _ => h = []
+  | .autoBatch h bd => ∀ n, getPath h t = some n → handleOk (autoBatchM bd n).1.shape h t
   | _ => True
 
-/-- FULL STATEMENT: `Coherent t → ValOk op → InScope t op → Coherent (step t op).1` for every operation and
-every outcome. It is FALSE of the code for `batch_size` assignments that fail with a dim-name conflict
-(`setbatch_names_conflict_counterexample`, known finding C01-batch-size-names-conflict) — hence hypothesis `hn`
-and the name `_partial`. Proved: every modelled operation (set, batch_size, names, del_, rename_key_,
-create_nested, clear, pop, popitem, setdefault, refine_names, update with dict payloads) and every other outcome, accepted or raising, on the root or through any nested handle. -/
-theorem step_coherent_partial (t : M) (hc : Coherent t) (op : Op) (hv : ValOk op) (hs : InScope t op)
-    (hn : ∀ h bs, op = .setBatch h bs → (step t op).2 ≠ .err .value)
-    (ha : ∀ h bd, op = .autoBatch h bd → (step t op).2 = .ok) : Coherent (step t op).1 := by
+/-- THE PROPERTY, one step: for every modelled operation — set, batch_size, names, del_, rename_key_, create_nested, clear,
+pop, popitem, setdefault, refine_names, update with dict or tensordict payloads, exclude / flatten_keys / unflatten_keys in place,
+auto_batch_size_ — issued on the root or through any nested handle, and for EVERY outcome (accepted or raising, partial
+effects included): a coherent tree stays coherent. `ValOk`: the written value is itself a coherent tensor / tensordict;
+`InScope`: the property's documented exclusion (a child resized through a direct handle below its parent's batch size).
+(Until the two `fix:` commits on `_batch_size_setter` / `auto_batch_size_` the statement needed two more hypotheses: a
+`batch_size` assignment or an `auto_batch_size_` refused because of a dim-name clash left nested tensordicts resized.) -/
+theorem step_coherent (t : M) (hc : Coherent t) (op : Op) (hv : ValOk op) (hs : InScope t op) : Coherent (step t op).1 := by
   cases op with
   | set h key v => exact (atPath_keeps _ (fun n hn => setPath_false_spec key v n hn hv) h t hc).2.2
   | setBatch h bs =>
-    have hne := hn h bs rfl
     cases h with
     | nil =>
       cases t with
       | leaf s d => exact hc
       | node tbs dv ns kids =>
-        simp only [step, atPath] at hne ⊢
-        exact (setBatchM_spec bs tbs dv ns kids hc).2.2.2 hne
-    | cons k rest => exact (atPath_setBatch_nested bs (k :: rest) (by simp) t hc hs hne).2.2
+        simp only [step, atPath]
+        exact (setBatchM_spec bs tbs dv ns kids hc).2.2.2
+    | cons k rest => exact (atPath_setBatch_nested bs (k :: rest) (by simp) t hc hs).2.2
   | setNames h ns => exact (atPath_keeps _ (fun n hn => setNamesM_spec ns n hn) h t hc).2.2
   | del h key => exact (atPath_keeps _ (fun n hn => delPath_spec key n hn) h t hc).2.2
   | rename h o n => exact (atPath_keeps _ (fun n' hn' => renamePath_spec o n n' hn') h t hc).2.2
@@ -125,28 +148,31 @@ theorem step_coherent_partial (t : M) (hc : Coherent t) (op : Op) (hv : ValOk op
   | setdefault h key v => exact (atPath_keeps _ (fun n hn => setDefaultPath_spec key v n hn hv) h t hc).2.2
   | refineNames h ns => exact (atPath_keeps _ (fun n hn => refineNamesM_spec ns n hn) h t hc).2.2
   | update h items => exact (atPath_keeps _ (fun n hn => updateC_spec _ items n hn) h t hc).2.2
+  | updateTd h m => exact (atPath_keeps _ (fun n hn => updateTdM_spec m n hn hv) h t hc).2.2
+  | excludeIn h keys => exact (atPath_keeps _ (fun n hn => excludeM_spec keys n hn) h t hc).2.2
+  | flattenIn h sep => exact (atPath_keeps _ (fun n hn => flattenM_spec sep n hn) h t hc).2.2
+  | unflattenIn h sep => exact (atPath_keeps _ (fun n hn => unflattenM_spec sep n hn) h t hc).2.2
   | autoBatch h bd =>
-    have hok := ha h bd rfl
-    have hh : h = [] := hs
-    subst hh
-    cases t with
-    | leaf s d => exact hc
-    | node tbs dv ns kids =>
-      simp only [step, atPath] at hok ⊢
-      exact ((autoBatchM_spec bd tbs dv ns kids hc).2 hok).1
+    cases h with
+    | nil =>
+      cases t with
+      | leaf s d => exact hc
+      | node tbs dv ns kids =>
+        simp only [step, atPath]
+        exact (autoBatchM_spec bd tbs dv ns kids hc).2.2.2
+    | cons k rest => exact (atPath_resize _ (autoBatchM_keeps bd) (k :: rest) (by simp) t hc hs).2.2
 
 /-- histories: the side conditions along a run -/
 def Safe (t : M) : List Op → Prop
   | [] => True
-  | op :: ops => ValOk op ∧ InScope t op ∧ (∀ h bs, op = .setBatch h bs → (step t op).2 ≠ .err .value) ∧
-      (∀ h bd, op = .autoBatch h bd → (step t op).2 = .ok) ∧ Safe (step t op).1 ops
+  | op :: ops => ValOk op ∧ InScope t op ∧ Safe (step t op).1 ops
 
-/-- every state reachable from a coherent tree by any finite history of the covered operations — accepted or
-rejected, on the root or through nested handles — is coherent (induction over the op list; no bound). -/
-theorem run_coherent_partial : ∀ (ops : List Op) (t : M), Coherent t → Safe t ops → Coherent (run t ops)
+/-- THE PROPERTY, histories: every state reachable from a coherent tree by any finite history of the modelled operations
+— accepted or rejected, on the root or through nested handles — is coherent (induction over the op list; no bound). -/
+theorem run_coherent : ∀ (ops : List Op) (t : M), Coherent t → Safe t ops → Coherent (run t ops)
   | [], _, hc, _ => hc
   | op :: ops, t, hc, hs =>
-    run_coherent_partial ops (step t op).1 (step_coherent_partial t hc op hs.1 hs.2.1 hs.2.2.1 hs.2.2.2.1) hs.2.2.2.2
+    run_coherent ops (step t op).1 (step_coherent t hc op hs.1 hs.2.1) hs.2.2
 
 /-- A write that would break coherence is rejected instead of being stored: a rejected `set(k, v)` leaves the
 node's entries exactly as they were (same keys in the same order, same shapes; at most dim names changed). -/
@@ -170,46 +196,43 @@ theorem ill_shaped_leaf_rejected (k : String) (s : Shape) (d : Nat) (bs : Shape)
     (step (.node bs dv ns kids) (.set [] [k] (.leaf s d))).2 = .err .runtime := by
   simp [step, atPath, setPath, validate, valShape, hb, hs, M.shape]
 
-/-! ## the two repaired defects and the remaining finding, as concrete statements -/
+/-! ## the repaired defects, as concrete statements -/
 
 /-- DESIGN §7 row 18 (repaired): the empty nested tensordict follows -/
 example : (step (.node [1] none none [("n", .node [1] none none [])]) (.setBatch [] [0])).1
     = .node [0] none none [("n", .node [0] none none [])] := by
-  simp [step, atPath, setBatchM, checkNewBs, growKids, finishResize, childNew, takeEq, isEmptyK]
+  simp [step, atPath, setBatchM, restoreOnErr, checkNewBs, growKids, finishResize, childNew, takeEq, isEmptyK]
 
 /-- DESIGN §7 row 19 (repaired): the rejected assignment leaves the nested tensordict alone -/
 example : step (.node [2, 0] none none [("a", .leaf [2, 0] 0), ("n", .node [2] none none [("x", .leaf [2] 0)])]) (.setBatch [] [2, 3, 1])
     = (.node [2, 0] none none [("a", .leaf [2, 0] 0), ("n", .node [2] none none [("x", .leaf [2] 0)])], .err .runtime) := by
   simp [step, atPath, setBatchM, checkNewBs, takeEq, isEmptyK]
 
-/-- KNOWN FINDING C01-batch-size-names-conflict (negation witness of the full `step_coherent`, replayed on the
-implementation by the check): the nested tensordict `c` has already received batch size [3] when pushing its name
-"x" into `g` (named [None, "x"]) raises ValueError; the parent keeps [2]. -/
-theorem setbatch_names_conflict_counterexample :
-    Coherent witT ∧ (step witT (.setBatch [] [3])).2 = .err .value ∧ ¬ Coherent (step witT (.setBatch [] [3])).1 := by
-  refine ⟨?_, by rw [wit_eval], ?_⟩
-  · refine Coherent.node _ _ _ _ (by simp) ?_ ?_
+/-- the former known finding C01-batch-size-names-conflict (repaired; replayed on the implementation by the corpus): the
+nested tensordict `c` used to keep batch size [3] when pushing its name "x" into `g` (named [None, "x"]) raised ValueError
+while the parent kept [2]; now the refused assignment leaves the tree exactly as it was. -/
+theorem setbatch_names_conflict_repaired :
+    Coherent witT ∧ step witT (.setBatch [] [3]) = (witT, .err .value) := by
+  refine ⟨?_, wit_eval⟩
+  refine Coherent.node _ _ _ _ (by simp) ?_ ?_
+  · intro k c hm; simp at hm; obtain ⟨_, rfl⟩ := hm
+    exact ⟨by simp [M.shape, takeEq], by simp⟩
+  · intro k c hm; simp at hm; obtain ⟨_, rfl⟩ := hm
+    refine Coherent.node _ _ _ _ (by simp) ?_ ?_
     · intro k c hm; simp at hm; obtain ⟨_, rfl⟩ := hm
       exact ⟨by simp [M.shape, takeEq], by simp⟩
     · intro k c hm; simp at hm; obtain ⟨_, rfl⟩ := hm
-      refine Coherent.node _ _ _ _ (by simp) ?_ ?_
-      · intro k c hm; simp at hm; obtain ⟨_, rfl⟩ := hm
-        exact ⟨by simp [M.shape, takeEq], by simp⟩
-      · intro k c hm; simp at hm; obtain ⟨_, rfl⟩ := hm
-        exact Coherent.node _ _ _ _ (by simp) (by simp) (by simp)
-  · rw [wit_eval]
-    exact not_coherent_of_child _ (.node [3] none none [("g", .node [3, 2] none (some [none, some "x"]) [])]) "c"
-      (by simp [getPath, kget]) (by simp [M.shape, takeEq])
+      exact Coherent.node _ _ _ _ (by simp) (by simp) (by simp)
 
 /-- The documented exclusion, stated so that it is visible: a batch size assigned through a direct handle to a nested
 tensordict is accepted although it no longer extends the parent's (the child has no back-pointer) — exactly the case
-`handleOk` rules out in `step_coherent_partial`. -/
+`handleOk` rules out in `step_coherent`. -/
 theorem shrink_via_child_out_of_scope :
     let t : M := .node [2] none none [("n", .node [2] none none [])]
     Coherent t ∧ ¬ handleOk [3] ["n"] t ∧ (step t (.setBatch ["n"] [3])).2 = .ok ∧ ¬ Coherent (step t (.setBatch ["n"] [3])).1 := by
   have hev : step (.node [2] none none [("n", .node [2] none none [])]) (.setBatch ["n"] [3])
       = (.node [2] none none [("n", .node [3] none none [])], .ok) := by
-    simp [step, atPath, kget, kset, setBatchM, checkNewBs, growKids, finishResize]
+    simp [step, atPath, kget, kset, setBatchM, restoreOnErr, checkNewBs, growKids, finishResize]
   refine ⟨?_, by simp [handleOk, takeEq], by rw [hev], ?_⟩
   · refine Coherent.node _ _ _ _ (by simp) ?_ ?_
     · intro k c hm; simp at hm; obtain ⟨_, rfl⟩ := hm; exact ⟨by simp [M.shape, takeEq], by simp⟩
